@@ -163,6 +163,57 @@ impl Kind {
     }
 }
 
+/// "Interrupt storm": k interruptions before every delivery; `one_by_one` delivers a single byte per
+/// successful call. A wrapper must treat any number of interruptions as "changes nothing".
+struct StormReader<'a> {
+    data: &'a [u8],
+    pos: usize,
+    k: u32,
+    pending: u32,
+    one_by_one: bool,
+}
+impl Read for StormReader<'_> {
+    fn read(&mut self, buf: &mut [u8]) -> io::Result<usize> {
+        if buf.is_empty() {
+            return Ok(0);
+        }
+        if self.pending > 0 {
+            self.pending -= 1;
+            return Err(io::Error::new(ErrorKind::Interrupted, "storm"));
+        }
+        self.pending = self.k;
+        let n = if self.one_by_one { 1 } else { buf.len() }.min(self.data.len() - self.pos);
+        buf[..n].copy_from_slice(&self.data[self.pos..self.pos + n]);
+        self.pos += n;
+        Ok(n)
+    }
+}
+struct StormWriter {
+    sink: Vec<u8>,
+    k: u32,
+    pending: u32,
+    one_by_one: bool,
+}
+impl Write for StormWriter {
+    fn write(&mut self, buf: &[u8]) -> io::Result<usize> {
+        if buf.is_empty() {
+            return Ok(0);
+        }
+        if self.pending > 0 {
+            self.pending -= 1;
+            return Err(io::Error::new(ErrorKind::Interrupted, "storm"));
+        }
+        self.pending = self.k;
+        let n = if self.one_by_one { 1 } else { buf.len() };
+        self.sink.extend_from_slice(&buf[..n]);
+        Ok(n)
+    }
+    fn flush(&mut self) -> io::Result<()> {
+        Ok(())
+    }
+}
+const STORMS: [u32; 9] = [1, 2, 3, 4, 5, 8, 16, 100, 1000];
+
 /// Operations of one (module, role, header kind, subject) combination on a subject type S.
 struct DecOps<S> {
     name: String,
@@ -604,6 +655,34 @@ fn dec_trees<S: Clone + Eq + Sync + Send + std::fmt::Debug>(
                     detail: json!({ "message": msg, "class": class }),
                 });
             }
+            // interrupt storms (outside the tree, which bounds interruptions)
+            for &k in &STORMS {
+                for one_by_one in [false, true] {
+                    let mut o = start.clone();
+                    let mut rd = StormReader { data: &wire_plus, pos: 0, k, pending: k, one_by_one };
+                    let res = catch(|| (ops.read)(&mut o, &mut rd));
+                    stats.read_execs.fetch_add(1, Ordering::Relaxed);
+                    let bad = match res {
+                        Ok(Ok(h)) => {
+                            if h != expected || rd.pos != wire.len() || !(o == after_raw || next_bytes_equal(&o, &after_raw, &ops.raw)) {
+                                Some(format!("returned {h:x?} (expected {expected:x?}), consumed {} of {} bytes", rd.pos, wire.len()))
+                            } else {
+                                None
+                            }
+                        }
+                        Ok(Err(e)) => Some(format!("returned Err({e}) although the reader only ever interrupted and then delivered")),
+                        Err(m) => Some(format!("panicked: {m}")),
+                    };
+                    if let Some(m) = bad {
+                        report.violation(Violation {
+                            signature: format!("C11|{}|read|interrupt-storm", ops.name),
+                            scenario: "reader-interrupt-storm".into(),
+                            replay: json!({"session_key": hex(key), "warmup": w, "size": size, "opcode": op, "interruptions_before_each_delivery": k, "one_byte_per_delivery": one_by_one}),
+                            detail: json!({"message": format!("{k} interruptions before each delivery: the read wrapper {m}")}),
+                        });
+                    }
+                }
+            }
         }
     }
 }
@@ -740,6 +819,33 @@ fn enc_trees<S: Clone + Eq + Sync + Send + std::fmt::Debug>(
                     replay: json!({"session_key": hex(key), "warmup": w, "size": size, "opcode": op, "writer_choices": choices}),
                     detail: json!({ "message": msg }),
                 });
+            }
+            for &k in &STORMS {
+                for one_by_one in [false, true] {
+                    let mut o = start.clone();
+                    let mut wr = StormWriter { sink: vec![], k, pending: k, one_by_one };
+                    let res = catch(|| (ops.write)(&mut o, &mut wr, size, op));
+                    stats.write_execs.fetch_add(1, Ordering::Relaxed);
+                    let bad = match res {
+                        Ok(Ok(())) => {
+                            if wr.sink != wire {
+                                Some(format!("returned Ok but the sink holds {} instead of {}", hex(&wr.sink), hex(&wire)))
+                            } else {
+                                None
+                            }
+                        }
+                        Ok(Err(e)) => Some(format!("returned Err({e}) although the writer only ever interrupted and then accepted")),
+                        Err(m) => Some(format!("panicked: {m}")),
+                    };
+                    if let Some(m) = bad {
+                        report.violation(Violation {
+                            signature: format!("C11|{}|write|interrupt-storm", ops.name),
+                            scenario: "writer-interrupt-storm".into(),
+                            replay: json!({"session_key": hex(key), "warmup": w, "size": size, "opcode": op, "interruptions_before_each_accept": k, "one_byte_per_accept": one_by_one}),
+                            detail: json!({"message": format!("{k} interruptions before each accepted write: the write wrapper {m}")}),
+                        });
+                    }
+                }
             }
         }
     }
@@ -1021,6 +1127,7 @@ pub fn run(tier: Tier, seed: u64) -> i32 {
     report.sample("reader-fault", json!({"header": "wrath server 5-byte, size 0x8000", "answers": ["deliver 2 of 4", "Interrupted", "deliver 2", "ConnectionReset on 5th byte"], "expected": "Err, decrypter == clone after attempt_decrypt_server_header(first 4); decrypt_large_server_header(5th) completes it"}));
     report.sample("writer-fault", json!({"header": "vanilla server 4-byte", "answers": ["accept 1 of 4", "Ok(0)"], "expected": "Err(WriteZero) from the wrapper, sink holds the first ciphertext byte"}));
     report.space(&format!("complete reader and writer answer trees (no deviation bound) for every entry point of vanilla/tbc/wrath x half/combined x {} start states x 2-4 header values x {} keys", warm.len(), keys.len()));
+    report.space("interrupt storms: 1,2,3,4,5,8,16,100,1000 interruptions before every delivery/accept (all at once or one byte at a time) for every entry point, start state and header value");
     report.space("typed helpers vs raw operation on the wire layout: all 2^16 sizes and all 2^16 opcodes against alphabets (server headers), every byte lane of the u32 client opcode, Wrath sizes/opcodes");
     report.assume("nothing is asserted about the encrypter's state after a FAILED write (the property does not state it); error kinds returned by the wrappers are recorded, not judged");
     report.finish()
